@@ -657,3 +657,447 @@ Proof.
   - cbn [lex_go]. apply flush_none_id.
   - apply lex_ws_end.
 Qed.
+
+(* ================================================================== text level *)
+Lemma parse_iff s t : parse s = Some t <-> in_language false s t.
+Proof.
+  unfold parse, in_language. split.
+  - destruct (lex s) as [ts|]; [|discriminate]. intros H. exists ts. split; [reflexivity|].
+    now apply parse_toks_gen_sound.
+  - intros (ts & -> & H). now apply parse_toks_gen_complete.
+Qed.
+
+Lemma doc_parse_iff s ts t : doc_parse s = Some (ts, t) <-> lex s = Some ts /\ Doc_start ts t.
+Proof.
+  unfold doc_parse. split.
+  - destruct (lex s) as [ts'|]; [|discriminate].
+    destruct (parse_toks_gen true ts') as [t'|] eqn:E; [|discriminate]. intros H. inversion H; subst.
+    split; [reflexivity|]. now apply parse_toks_gen_sound.
+  - intros (-> & H). now rewrite (parse_toks_gen_complete true _ _ H).
+Qed.
+
+(* "a.[b,b]" *)
+Definition f17_text : list chr := [CStart 97; CDotC; CLbr; CStart 98; CCommaC; CStart 98; CRbr].
+Lemma f17_refuted :
+  exists t, in_language false f17_text t /\ in_language true f17_text t /\ compile_str f17_text = CompileError
+            /\ doc_paths t = [[NNamed [97%Z] true false; NNamed [98%Z] true false];
+                              [NNamed [97%Z] true false; NNamed [98%Z] true false]].
+Proof.
+  exists (TSeries (TTrait [97%Z]) CDot (TPar (TTrait [98%Z]) (TTrait [98%Z]))).
+  assert (in_language false f17_text (TSeries (TTrait [97%Z]) CDot (TPar (TTrait [98%Z]) (TTrait [98%Z])))) as H.
+  { apply parse_iff. vm_compute. reflexivity. }
+  split; [exact H|]. split; [|split; vm_compute; reflexivity].
+  destruct H as (ts & Hl & HD). exists ts. split; [exact Hl|]. now apply lark_subset_doc.
+Qed.
+
+(* ================================================================== Part 6: the model satisfies the law, up to F10 and F17 *)
+Open Scope Z_scope.
+
+Lemma depth_zero_mut doc :
+  (forall b ts t, D_elem doc b ts t -> depth ts = 0) /\
+  (forall b ts t, D_ser doc b ts t -> depth ts = 0) /\
+  (forall b ts t, D_par doc b ts t -> depth ts = 0).
+Proof.
+  apply D_mutind; intros; try reflexivity; auto.
+  - cbn [depth]. rewrite depth_app. cbn [depth bump]. lia.
+  - rewrite depth_app. cbn [depth bump]. lia.
+  - rewrite depth_app. cbn [depth bump]. lia.
+Qed.
+
+Lemma sib_app a : forall d b,
+  star_in_brackets d (a ++ b) = star_in_brackets d a || star_in_brackets (d + depth a) b.
+Proof.
+  induction a as [|t r IH]; intros d b; cbn [app depth star_in_brackets].
+  - cbn. f_equal. lia.
+  - destruct t; cbn [star_in_brackets bump]; rewrite IH; rewrite ?orb_assoc; f_equal; f_equal; lia.
+Qed.
+
+(* a documented text without a "*" inside brackets is derivable in the parser's grammar *)
+Lemma doc_minus_f10_mut :
+  (forall b ts t, D_elem true b ts t -> forall d, 0 <= d -> star_in_brackets d ts = false ->
+      D_elem false b ts t /\ (0 < d -> has_any t = false)) /\
+  (forall b ts t, D_ser true b ts t -> forall d, 0 <= d -> star_in_brackets d ts = false ->
+      D_ser false b ts t /\ (0 < d -> has_any t = false)) /\
+  (forall b ts t, D_par true b ts t -> forall d, 0 <= d -> star_in_brackets d ts = false ->
+      D_par false b ts t /\ (0 < d -> has_any t = false)).
+Proof.
+  apply D_mutind.
+  - intros b w Hw d _ _. split; [now apply De_items|reflexivity].
+  - intros b w Hw d _ _. split; [now apply De_trait|reflexivity].
+  - intros b w d _ _. split; [apply De_meta|reflexivity].
+  - intros d Hd Hs. split; [apply De_any|]. intros Hpos. cbn in Hs. apply orb_false_elim in Hs.
+    destruct Hs as [Hs _]. apply Z.ltb_ge in Hs. lia.
+  - intros b ts t HD IH d Hd Hs. cbn [app star_in_brackets] in Hs. rewrite sib_app in Hs.
+    apply orb_false_elim in Hs. destruct Hs as [Hs _].
+    destruct (IH (d + 1) ltac:(lia) Hs) as [H1 H2]. specialize (H2 ltac:(lia)).
+    split; [|intros _; exact H2]. apply De_br. rewrite andb_false_r.
+    now apply (proj2 (proj2 (demote_mut false)) _ _ _ H1).
+  - intros b ts t _ IH d Hd Hs. destruct (IH d Hd Hs). split; [now apply Ds_one|assumption].
+  - intros b ts1 t1 c ts2 t2 HD1 IH1 _ IH2 d Hd Hs. rewrite sib_app in Hs. apply orb_false_elim in Hs.
+    destruct Hs as [Hs1 Hs2]. rewrite (proj1 (proj2 (depth_zero_mut true)) _ _ _ HD1) in Hs2.
+    cbn [star_in_brackets] in Hs2. replace (d + 0) with d in Hs2 by lia.
+    destruct (IH1 d Hd Hs1) as [A1 B1]. destruct (IH2 d Hd Hs2) as [A2 B2].
+    split; [now apply Ds_cons|]. intros Hpos. cbn [has_any]. now rewrite (B1 Hpos), (B2 Hpos).
+  - intros b ts t _ IH d Hd Hs. destruct (IH d Hd Hs). split; [now apply Dp_one|assumption].
+  - intros b ts1 t1 ts2 t2 HD1 IH1 _ IH2 d Hd Hs. rewrite sib_app in Hs. apply orb_false_elim in Hs.
+    destruct Hs as [Hs1 Hs2]. rewrite (proj2 (proj2 (depth_zero_mut true)) _ _ _ HD1) in Hs2.
+    cbn [star_in_brackets] in Hs2. replace (d + 0) with d in Hs2 by lia.
+    destruct (IH1 d Hd Hs1) as [A1 B1]. destruct (IH2 d Hd Hs2) as [A2 B2].
+    split; [now apply Dp_cons|]. intros Hpos. cbn [has_any]. now rewrite (B1 Hpos), (B2 Hpos).
+Qed.
+
+Lemma doc_minus_f10 ts t : Doc_start ts t -> star_in_brackets 0 ts = false -> D_start ts t.
+Proof. intros H Hs. apply (proj2 (proj2 doc_minus_f10_mut) _ _ _ H 0 ltac:(lia) Hs). Qed.
+Close Scope Z_scope.
+
+(* ---------- equal graphs denote the same paths; a refused compilation denotes some path twice ---------- *)
+Lemma path_eqb_refl p : path_eqb p p = true.
+Proof. induction p as [|n p IH]; [reflexivity|]. cbn. now rewrite node_eqb_refl. Qed.
+
+Lemma path_subset_refl l : path_subset l l = true.
+Proof.
+  apply forallb_forall. intros p Hp. apply existsb_exists. exists p. split; [exact Hp|apply path_eqb_refl].
+Qed.
+
+Lemma path_set_eqb_refl l : path_set_eqb l l = true.
+Proof. unfold path_set_eqb. now rewrite path_subset_refl. Qed.
+
+Lemma gp_cons n c cs : graph_paths (G n (c :: cs)) = map (cons n) (flat_map graph_paths (c :: cs)).
+Proof. reflexivity. Qed.
+
+Lemma graph_eqb_paths g1 : forall g2, graph_eqb g1 g2 = true ->
+  forall p, In p (graph_paths g1) -> exists q, In q (graph_paths g2) /\ path_eqb p q = true.
+Proof.
+  induction g1 as [n1 c1 IH] using graph_ind'. intros [n2 c2] H p Hp.
+  cbn [graph_eqb] in H. apply andb_prop in H. destruct H as [H H2]. apply andb_prop in H. destruct H as [Hn H1].
+  rewrite forallb_forall in H1, H2.
+  destruct c1 as [|x1 c1'].
+  - destruct c2 as [|y c2'].
+    + cbn in Hp. destruct Hp as [<-|[]]. exists [n2]. split; [now left|]. cbn. now rewrite Hn.
+    + specialize (H2 y (or_introl eq_refl)). discriminate.
+  - rewrite gp_cons in Hp. apply in_map_iff in Hp. destruct Hp as (p' & <- & Hp').
+    apply in_flat_map in Hp'. destruct Hp' as (x & Hx & Hpx).
+    specialize (H1 x Hx). apply existsb_exists in H1. destruct H1 as (y & Hy & Hxy).
+    rewrite Forall_forall in IH. destruct (IH x Hx y Hxy p' Hpx) as (q' & Hq' & He).
+    exists (n2 :: q'). split.
+    + destruct c2 as [|y0 c2']; [destruct Hy|]. rewrite gp_cons. apply in_map. apply in_flat_map. now exists y.
+    + cbn. now rewrite Hn.
+Qed.
+
+Lemma graphs_eqb_paths g1 : forall g2, list_eqb graph_eqb g1 g2 = true ->
+  path_subset (flat_map graph_paths g1) (flat_map graph_paths g2) = true.
+Proof.
+  induction g1 as [|x g1 IH]; intros [|y g2] H; try discriminate; [reflexivity|].
+  cbn [list_eqb] in H. apply andb_prop in H. destruct H as [Hxy H]. specialize (IH _ H).
+  apply forallb_forall. intros p Hp. apply existsb_exists. cbn [flat_map] in *. apply in_app_or in Hp.
+  destruct Hp as [Hp|Hp].
+  - destruct (graph_eqb_paths _ _ Hxy _ Hp) as (q & Hq & He). exists q. split; [apply in_or_app; now left|exact He].
+  - unfold path_subset in IH. rewrite forallb_forall in IH. specialize (IH p Hp). apply existsb_exists in IH.
+    destruct IH as (q & Hq & He). exists q. split; [apply in_or_app; now right|exact He].
+Qed.
+
+Lemma has_dup_app_l a b : has_dup a = true -> has_dup (a ++ b) = true.
+Proof.
+  induction a as [|x a IH]; [discriminate|]. cbn [app has_dup]. intros H. apply orb_prop in H. destruct H as [H|H].
+  - apply existsb_exists in H. destruct H as (q & Hq & He).
+    assert (existsb (path_eqb x) (a ++ b) = true) as ->; [|reflexivity].
+    apply existsb_exists. exists q. split; [apply in_or_app; now left|exact He].
+  - rewrite (IH H). apply orb_true_r.
+Qed.
+Lemma has_dup_app_r a b : has_dup b = true -> has_dup (a ++ b) = true.
+Proof. intros H. induction a as [|x a IH]; [exact H|]. cbn [app has_dup]. rewrite IH. apply orb_true_r. Qed.
+Lemma has_dup_cross a b p q : In p a -> In q b -> path_eqb p q = true -> has_dup (a ++ b) = true.
+Proof.
+  intros Hp Hq He. induction a as [|x a IH]; [destruct Hp|]. cbn [app has_dup]. destruct Hp as [->|Hp].
+  - assert (existsb (path_eqb p) (a ++ b) = true) as ->; [|reflexivity].
+    apply existsb_exists. exists q. split; [apply in_or_app; now right|exact He].
+  - rewrite (IH Hp). apply orb_true_r.
+Qed.
+
+Lemma path_eqb_app a p q : path_eqb (a ++ p) (a ++ q) = path_eqb p q.
+Proof. induction a as [|n a IH]; [reflexivity|]. cbn. rewrite node_eqb_refl. exact IH. Qed.
+
+Lemma has_dup_map_app a Q : has_dup Q = true -> has_dup (map (app a) Q) = true.
+Proof.
+  induction Q as [|p Q IH]; [discriminate|]. cbn [map has_dup]. intros H. apply orb_prop in H. destruct H as [H|H].
+  - apply existsb_exists in H. destruct H as (q & Hq & He).
+    assert (existsb (path_eqb (a ++ p)) (map (app a) Q) = true) as ->; [|reflexivity].
+    apply existsb_exists. exists (a ++ q). split; [now apply in_map|]. now rewrite path_eqb_app.
+  - rewrite (IH H). apply orb_true_r.
+Qed.
+
+Lemma has_dup_cat A Q : A <> [] -> has_dup Q = true -> has_dup (cat A Q) = true.
+Proof.
+  intros HA HQ. destruct Q as [|q Q]; [discriminate|]. cbn [cat]. destruct A as [|a A]; [contradiction|].
+  rewrite prod_cons. apply has_dup_app_l. now apply has_dup_map_app.
+Qed.
+
+Lemma distinctb_dup br : distinctb br = false -> has_dup (flat_map graph_paths br) = true.
+Proof.
+  induction br as [|x r IH]; [discriminate|]. cbn [distinctb flat_map]. intros H.
+  apply andb_false_elim in H. destruct H as [H|H].
+  - apply negb_false_iff in H. apply existsb_exists in H. destruct H as (y & Hy & Hxy).
+    destruct (graph_paths x) as [|p ps] eqn:E; [now apply graph_paths_nonempty in E|].
+    destruct (graph_eqb_paths _ _ Hxy p) as (q & Hq & He); [rewrite E; now left|].
+    apply has_dup_cross with (p := p) (q := q); [now left| |exact He]. apply in_flat_map. now exists y.
+  - apply has_dup_app_r. now apply IH.
+Qed.
+
+Lemma create_graphs_none e : forall br,
+  create_graphs e br = None -> has_dup (cat (paths e) (flat_map graph_paths br)) = true.
+Proof.
+  induction e as [n|a IHa b IHb|a IHa b IHb]; intros br H; cbn [create_graphs paths] in *.
+  - destruct (distinctb br) eqn:E; [discriminate|]. apply has_dup_cat; [discriminate|]. now apply distinctb_dup.
+  - fold (prod (paths a) (paths b)). rewrite cat_assoc by apply paths_nonempty.
+    destruct (create_graphs b br) as [bs|] eqn:Eb.
+    + rewrite <- (create_graphs_paths _ _ _ Eb). now apply IHa.
+    + apply has_dup_cat; [apply paths_nonempty|]. now apply IHb.
+  - rewrite cat_app. destruct (create_graphs a br) as [l|] eqn:Ea.
+    + destruct (create_graphs b br) as [r|] eqn:Eb; [discriminate|]. apply has_dup_app_r. now apply IHb.
+    + apply has_dup_app_l. now apply IHa.
+Qed.
+
+Lemma compile_error_dup t : compile_tree t = CompileError -> has_dup (doc_paths t) = true.
+Proof.
+  unfold compile_tree. destruct (create_graphs (handle_tree t true) []) eqn:E; [discriminate|]. intros _.
+  apply create_graphs_none in E. cbn [flat_map cat] in E. pose proof (handle_paths t LEnd) as HH.
+  cbn [notify_of] in HH. now rewrite HH in E.
+Qed.
+
+Lemma compile_tree_not_rejected t : compile_tree t <> Rejected /\ compile_tree t <> Crashed.
+Proof. unfold compile_tree. destruct (create_graphs _ _); split; discriminate. Qed.
+
+(* The law evaluated on the model's own outcome can only raise the two listed findings:
+   code 1 (documented text with a bracketed "*" rejected, F10) and code 3 (a repeated path refused, F17). *)
+Lemma model_law s c : In c (law_single s (compile_str s)) -> c = 1%Z \/ c = 3%Z.
+Proof.
+  unfold law_single. destruct (doc_parse s) as [[ts t]|] eqn:Ed.
+  - apply doc_parse_iff in Ed. destruct Ed as [Hl HD].
+    unfold compile_str, parse. rewrite Hl.
+    destruct (parse_toks ts) as [t'|] eqn:Ep.
+    + assert (t' = t) as ->.
+      { apply parse_toks_gen_sound in Ep. apply lark_subset_doc in Ep. eapply derivation_unique; eauto. }
+      destruct (compile_tree t) as [| |gs|] eqn:Ec.
+      * now destruct (compile_tree_not_rejected t).
+      * rewrite (compile_error_dup _ Ec). intros [<-|[]]. now right.
+      * rewrite (meaning_lemma _ _ Ec), path_set_eqb_refl. intros [].
+      * now destruct (compile_tree_not_rejected t).
+    + destruct (star_in_brackets 0 ts) eqn:Es; [intros [<-|[]]; now left|].
+      apply doc_minus_f10 in HD; [|exact Es]. apply (parse_toks_gen_complete false) in HD.
+      unfold parse_toks in Ep. congruence.
+  - assert (compile_str s = Rejected) as ->; [|intros []].
+    unfold compile_str. destruct (parse s) as [t|] eqn:Ep; [|reflexivity]. exfalso.
+    apply parse_iff in Ep. destruct Ep as (ts & Hl & HD). apply lark_subset_doc in HD.
+    assert (doc_parse s = Some (ts, t)) as E by (apply doc_parse_iff; split; assumption). congruence.
+Qed.
+
+(* with the two findings excluded the law holds outright *)
+Lemma model_law_clean s :
+  (forall ts, lex s = Some ts -> star_in_brackets 0 ts = false) -> compile_str s <> CompileError ->
+  law_single s (compile_str s) = [].
+Proof.
+  intros Hs Hc. destruct (law_single s (compile_str s)) as [|c l] eqn:E; [reflexivity|]. exfalso.
+  assert (In c (law_single s (compile_str s))) as Hin by (rewrite E; now left).
+  pose proof (model_law _ _ Hin) as Hc13. clear Hin.
+  unfold law_single in E. destruct (doc_parse s) as [[ts t]|] eqn:Ed.
+  - pose proof (proj1 (doc_parse_iff _ _ _) Ed) as [Hl _]. specialize (Hs _ Hl).
+    destruct (compile_str s) as [| |gs|] eqn:Eo.
+    + rewrite Hs in E. inversion E; subst. destruct Hc13; discriminate.
+    + now apply Hc.
+    + destruct (path_set_eqb _ _); inversion E; subst. destruct Hc13; discriminate.
+    + inversion E; subst. destruct Hc13; discriminate.
+  - destruct (compile_str s); cbn in E; inversion E; subst; destruct Hc13; discriminate.
+Qed.
+
+(* Python-equal results denote the same paths (clause 12 of the pair law on the model) *)
+Lemma equal_graphs_same_paths g1 g2 : list_eqb graph_eqb g1 g2 = true ->
+  path_subset (flat_map graph_paths g1) (flat_map graph_paths g2) = true.
+Proof. apply graphs_eqb_paths. Qed.
+
+(* ================================================================== Part 7: the lexer meets its declarative spec *)
+Lemma lex_word_run cs : forall w' s ts, word_chars cs = Some w' -> starts_wordchar s = false ->
+  lex_go None s = Some ts -> forall w, lex_go (Some w) (cs ++ s) = Some (W (w ++ w') :: ts).
+Proof.
+  induction cs as [|ch cs IH]; intros w' s ts Hw Hs Hl w.
+  - inversion Hw; subst. rewrite app_nil_r. cbn [app].
+    destruct s as [|x r]; [cbn in *; now inversion Hl|].
+    destruct x; try discriminate; cbn [lex_go sym_of] in *;
+      destruct (lex_go None r); cbn in *; inversion Hl; subst; reflexivity.
+  - destruct ch; try discriminate; cbn [word_chars] in Hw;
+      destruct (word_chars cs) as [w''|] eqn:E; try discriminate; inversion Hw; subst;
+      cbn [app lex_go]; rewrite (IH _ _ _ eq_refl Hs Hl); now rewrite <- app_assoc.
+Qed.
+
+Lemma lex_complete_spell ts s : Spell ts s -> lex s = Some ts.
+Proof.
+  unfold lex. induction 1 as [|ts s _ IH|ts s x t Hx _ IH|ts s c0 cs w Hw Hs _ IH].
+  - reflexivity.
+  - cbn [lex_go]. now rewrite IH.
+  - destruct x; try discriminate; cbn [lex_go sym_of] in *; rewrite IH; now inversion Hx.
+  - cbn [lex_go]. now rewrite (lex_word_run _ _ _ _ Hw Hs IH).
+Qed.
+
+Lemma lex_sound_spell s :
+  (forall ts, lex_go None s = Some ts -> Spell ts s) /\
+  (forall w ts, lex_go (Some w) s = Some ts ->
+     exists cs w' ts' s', s = cs ++ s' /\ word_chars cs = Some w' /\ starts_wordchar s' = false /\
+                          ts = W (w ++ w') :: ts' /\ Spell ts' s').
+Proof.
+  induction s as [|ch r [IHn IHs]].
+  - split.
+    + intros ts H. inversion H. constructor.
+    + intros w ts H. inversion H. exists [], [], [], []. split; [reflexivity|]. split; [reflexivity|].
+      split; [reflexivity|]. split; [now rewrite app_nil_r|]. constructor.
+  - split.
+    + intros ts H. destruct ch; cbn [lex_go sym_of] in H; try discriminate.
+      * destruct (IHs _ _ H) as (cs & w' & ts' & s' & -> & Hw & Hs & -> & Hsp). now apply Sp_word.
+      * destruct (lex_go None r) as [ts0|] eqn:E; [|discriminate]. cbn in H. inversion H; subst. apply Sp_ws. auto.
+      * destruct (lex_go None r) as [ts0|] eqn:E; [|discriminate]. inversion H; subst. apply Sp_sym; auto.
+      * destruct (lex_go None r) as [ts0|] eqn:E; [|discriminate]. inversion H; subst. apply Sp_sym; auto.
+      * destruct (lex_go None r) as [ts0|] eqn:E; [|discriminate]. inversion H; subst. apply Sp_sym; auto.
+      * destruct (lex_go None r) as [ts0|] eqn:E; [|discriminate]. inversion H; subst. apply Sp_sym; auto.
+      * destruct (lex_go None r) as [ts0|] eqn:E; [|discriminate]. inversion H; subst. apply Sp_sym; auto.
+      * destruct (lex_go None r) as [ts0|] eqn:E; [|discriminate]. inversion H; subst. apply Sp_sym; auto.
+      * destruct (lex_go None r) as [ts0|] eqn:E; [|discriminate]. inversion H; subst. apply Sp_sym; auto.
+    + intros w ts H. destruct ch; cbn [lex_go sym_of] in H; try discriminate.
+      * destruct (IHs _ _ H) as (cs & w' & ts' & s' & -> & Hw & Hs & -> & Hsp).
+        exists (CStart c :: cs), (c :: w'), ts', s'. repeat split; auto.
+        -- cbn [word_chars]. now rewrite Hw.
+        -- now rewrite <- app_assoc.
+      * destruct (IHs _ _ H) as (cs & w' & ts' & s' & -> & Hw & Hs & -> & Hsp).
+        exists (CCont c :: cs), (c :: w'), ts', s'. repeat split; auto.
+        -- cbn [word_chars]. now rewrite Hw.
+        -- now rewrite <- app_assoc.
+      * destruct (lex_go None r) as [ts0|] eqn:E; [|discriminate]. cbn in H. inversion H; subst.
+        exists [], [], ts0, (CWs :: r). split; [reflexivity|]. split; [reflexivity|]. split; [reflexivity|].
+        split; [now rewrite app_nil_r|]. apply Sp_ws. auto.
+      * destruct (lex_go None r) as [ts0|] eqn:E; [|discriminate]. inversion H; subst.
+        eexists [], [], _, _. split; [reflexivity|]. split; [reflexivity|]. split; [reflexivity|].
+        split; [now rewrite app_nil_r|]. apply Sp_sym; auto.
+      * destruct (lex_go None r) as [ts0|] eqn:E; [|discriminate]. inversion H; subst.
+        eexists [], [], _, _. split; [reflexivity|]. split; [reflexivity|]. split; [reflexivity|].
+        split; [now rewrite app_nil_r|]. apply Sp_sym; auto.
+      * destruct (lex_go None r) as [ts0|] eqn:E; [|discriminate]. inversion H; subst.
+        eexists [], [], _, _. split; [reflexivity|]. split; [reflexivity|]. split; [reflexivity|].
+        split; [now rewrite app_nil_r|]. apply Sp_sym; auto.
+      * destruct (lex_go None r) as [ts0|] eqn:E; [|discriminate]. inversion H; subst.
+        eexists [], [], _, _. split; [reflexivity|]. split; [reflexivity|]. split; [reflexivity|].
+        split; [now rewrite app_nil_r|]. apply Sp_sym; auto.
+      * destruct (lex_go None r) as [ts0|] eqn:E; [|discriminate]. inversion H; subst.
+        eexists [], [], _, _. split; [reflexivity|]. split; [reflexivity|]. split; [reflexivity|].
+        split; [now rewrite app_nil_r|]. apply Sp_sym; auto.
+      * destruct (lex_go None r) as [ts0|] eqn:E; [|discriminate]. inversion H; subst.
+        eexists [], [], _, _. split; [reflexivity|]. split; [reflexivity|]. split; [reflexivity|].
+        split; [now rewrite app_nil_r|]. apply Sp_sym; auto.
+      * destruct (lex_go None r) as [ts0|] eqn:E; [|discriminate]. inversion H; subst.
+        eexists [], [], _, _. split; [reflexivity|]. split; [reflexivity|]. split; [reflexivity|].
+        split; [now rewrite app_nil_r|]. apply Sp_sym; auto.
+Qed.
+
+Lemma lex_iff_spell s ts : lex s = Some ts <-> Spell ts s.
+Proof. split; [apply lex_sound_spell|apply lex_complete_spell]. Qed.
+
+(* ================================================================== Part 8: ObserverGraph.__eq__ ignores the order of children *)
+From Coq Require Import Permutation.
+
+Lemma graph_eqb_perm n cs cs' : Permutation cs cs' -> graph_eqb (G n cs) (G n cs') = true.
+Proof.
+  intros HP. cbn [graph_eqb]. rewrite node_eqb_refl. cbn [andb]. apply andb_true_intro. split.
+  - apply forallb_forall. intros x Hx. apply existsb_exists. exists x. split.
+    + eapply Permutation_in; eauto.
+    + apply graph_eqb_refl.
+  - apply forallb_forall. intros y Hy. apply existsb_exists. exists y. split.
+    + eapply Permutation_in; [apply Permutation_sym|]; eauto.
+    + apply graph_eqb_refl.
+Qed.
+
+Lemma par_comm a b br l : create_graphs (EPar a b) br = Some l ->
+  exists l', create_graphs (EPar b a) br = Some l' /\ Permutation l l'.
+Proof.
+  cbn [create_graphs]. destruct (create_graphs a br) as [x|]; [|discriminate].
+  destruct (create_graphs b br) as [y|]; [|discriminate]. intros H. inversion H; subst.
+  exists (y ++ x). split; [reflexivity|apply Permutation_app_comm].
+Qed.
+
+Lemma word_eqb_sym a : forall b, word_eqb a b = word_eqb b a.
+Proof. induction a as [|x a IH]; intros [|y b]; cbn; try reflexivity. now rewrite Z.eqb_sym, IH. Qed.
+Lemma bool_eqb_sym a b : Bool.eqb a b = Bool.eqb b a.
+Proof. now destruct a, b. Qed.
+Lemma node_eqb_sym a b : node_eqb a b = node_eqb b a.
+Proof.
+  destruct a as [w n o|n f|n o|n o|n o], b as [w' n' o'|n' f'|n' o'|n' o'|n' o']; cbn; try reflexivity;
+    rewrite ?(word_eqb_sym w w'), ?(bool_eqb_sym n n'), ?(bool_eqb_sym o o'); try reflexivity.
+  destruct f, f'; cbn; try reflexivity. now rewrite word_eqb_sym.
+Qed.
+
+Lemma forallb_ext_in {A} (f g : A -> bool) l : (forall x, In x l -> f x = g x) -> forallb f l = forallb g l.
+Proof.
+  induction l as [|x l IH]; intros H; [reflexivity|]. cbn. rewrite (H x (or_introl eq_refl)), IH; [reflexivity|].
+  intros y Hy. apply H. now right.
+Qed.
+Lemma existsb_ext_in {A} (f g : A -> bool) l : (forall x, In x l -> f x = g x) -> existsb f l = existsb g l.
+Proof.
+  induction l as [|x l IH]; intros H; [reflexivity|]. cbn. rewrite (H x (or_introl eq_refl)), IH; [reflexivity|].
+  intros y Hy. apply H. now right.
+Qed.
+
+Lemma graph_eqb_sym a : forall b, graph_eqb a b = graph_eqb b a.
+Proof.
+  induction a as [n1 c1 IH] using graph_ind'. intros [n2 c2]. cbn [graph_eqb].
+  rewrite Forall_forall in IH. rewrite (node_eqb_sym n1 n2). rewrite <- !andb_assoc. f_equal.
+  rewrite andb_comm. f_equal.
+  - apply forallb_ext_in. intros y _. apply existsb_ext_in. intros x Hx. now apply IH.
+  - apply forallb_ext_in. intros x Hx. apply existsb_ext_in. intros y _. now apply IH.
+Qed.
+
+Lemma word_eqb_eq a : forall b, word_eqb a b = true -> a = b.
+Proof.
+  induction a as [|x a IH]; intros [|y b] H; try discriminate; [reflexivity|].
+  cbn in H. apply andb_prop in H. destruct H as [H1 H2]. apply Z.eqb_eq in H1. subst. f_equal. auto.
+Qed.
+Lemma node_eqb_eq a b : node_eqb a b = true -> a = b.
+Proof.
+  destruct a as [w n o|n f|n o|n o|n o], b as [w' n' o'|n' f'|n' o'|n' o'|n' o']; cbn; try discriminate; intros H;
+    repeat (apply andb_prop in H; destruct H as [H ?]);
+    repeat match goal with
+           | X : Bool.eqb _ _ = true |- _ => apply eqb_prop in X; subst
+           | X : word_eqb _ _ = true |- _ => apply word_eqb_eq in X; subst
+           end; try reflexivity.
+  destruct f, f'; cbn in *; try discriminate; try reflexivity.
+  match goal with X : word_eqb _ _ = true |- _ => apply word_eqb_eq in X; subst end. reflexivity.
+Qed.
+
+Lemma graph_eqb_trans a : forall b c, graph_eqb a b = true -> graph_eqb b c = true -> graph_eqb a c = true.
+Proof.
+  induction a as [n1 c1 IH] using graph_ind'. intros [n2 c2] [n3 c3] Hab Hbc. cbn [graph_eqb] in *.
+  rewrite Forall_forall in IH.
+  apply andb_prop in Hab. destruct Hab as [Hab Hab2]. apply andb_prop in Hab. destruct Hab as [Hn12 Hab1].
+  apply andb_prop in Hbc. destruct Hbc as [Hbc Hbc2]. apply andb_prop in Hbc. destruct Hbc as [Hn23 Hbc1].
+  apply node_eqb_eq in Hn12. apply node_eqb_eq in Hn23. subst. rewrite node_eqb_refl. cbn [andb].
+  rewrite forallb_forall in Hab1, Hab2, Hbc1, Hbc2.
+  apply andb_true_intro. split; apply forallb_forall.
+  - intros x Hx. specialize (Hab1 x Hx). apply existsb_exists in Hab1. destruct Hab1 as (y & Hy & Hxy).
+    specialize (Hbc1 y Hy). apply existsb_exists in Hbc1. destruct Hbc1 as (z & Hz & Hyz).
+    apply existsb_exists. exists z. split; [exact Hz|]. eapply IH; eauto.
+  - intros z Hz. specialize (Hbc2 z Hz). apply existsb_exists in Hbc2. destruct Hbc2 as (y & Hy & Hyz).
+    specialize (Hab2 y Hy). apply existsb_exists in Hab2. destruct Hab2 as (x & Hx & Hxy).
+    apply existsb_exists. exists x. split; [exact Hx|]. eapply IH; eauto.
+Qed.
+
+(* ================================================================== the expression API *)
+Lemma expr_meaning e :
+  (forall gs, create_graphs e [] = Some gs -> flat_map graph_paths gs = paths e) /\
+  (create_graphs e [] = None -> has_dup (paths e) = true).
+Proof.
+  split.
+  - intros gs H. now rewrite (create_graphs_paths _ _ _ H).
+  - intros H. apply create_graphs_none in H. exact H.
+Qed.
+
+Lemma expr_law e : forall c,
+  In c (law_expr e (match create_graphs e [] with Some gs => Graphs gs | None => CompileError end)) -> c = 3%Z.
+Proof.
+  intros c. unfold law_expr. destruct (create_graphs e []) as [gs|] eqn:E.
+  - rewrite (proj1 (expr_meaning e) _ E), path_set_eqb_refl. intros [].
+  - rewrite (proj2 (expr_meaning e) E). intros [<-|[]]. reflexivity.
+Qed.
